@@ -367,9 +367,11 @@ pub fn fixed_base(i: usize) -> Base {
 }
 
 fn plan_for(idx: u64) -> ReadPlan {
-    match idx % 9 {
-        7 => ReadPlan::PrefixThen { prefix: 2, step: 1, then: (idx / 9 % 4) as u8 },
-        8 => ReadPlan::PrefixThen { prefix: 7, step: 3, then: (idx / 9 % 4) as u8 },
+    match idx % 11 {
+        9 => ReadPlan::StdAdaptor { which: (idx / 11 % 5) as u8, size: 3 },
+        10 => ReadPlan::StdAdaptor { which: (idx / 11 % 5) as u8, size: 4096 },
+        7 => ReadPlan::PrefixThen { prefix: 2, step: 1, then: (idx / 11 % 4) as u8 },
+        8 => ReadPlan::PrefixThen { prefix: 7, step: 3, then: (idx / 11 % 4) as u8 },
         0 => ReadPlan::Loop { sizes: vec![4096], via_split: false },
         1 => ReadPlan::Loop { sizes: vec![1], via_split: false },
         2 => ReadPlan::Bytes,
